@@ -75,6 +75,15 @@ def text(bits, max_size, exclude="", hot=""):
         # strings that mean something to formatting / templating code
         t = bits.pick(TEMPLATES)[:max_size]
         return "".join("a" if ch in exclude else ch for ch in t)
+    if bits.below(16) == 0:
+        # a longer, mostly plain string with ONE unusual character in it (what a fast path for "ordinary" text
+        # of some minimum length gets wrong); deliberately longer than max_size
+        n = 17 + bits.below(80)
+        plain = "abcXYZ 019"
+        out = [plain[(i + n) % len(plain)] for i in range(n)]
+        ch = bits.pick(SPECIAL)
+        out[bits.below(n)] = "a" if ch in exclude else ch
+        return "".join(out)
     out = []
     for _ in range(n):
         cls = bits.below(16)
